@@ -84,6 +84,7 @@ def replay_corpus(pid, tier, seed, deadline):
         out = os.path.join(tmp, "findings.jsonl")
         env = dict(os.environ, PYTHONHASHSEED="0", VERIF_FUZZ_OUT=out)
         files = sorted(glob.glob(os.path.join(CORPUS, "*")))
+        files = files[seed % 3::3]          # quick tier: a third of the committed corpus per run, rotating with the seed (thorough: all of it seeds the campaign)
         p = subprocess.run(["/venv/bin/python", TARGET] + files + ["-max_len=4096"], env=env, stdout=subprocess.DEVNULL, stderr=subprocess.PIPE, text=True,
                            timeout=max(30, deadline - time.time()))
         if p.returncode != 0 and "atheris" in (p.stderr or "") and "No module named" in (p.stderr or ""):
@@ -100,7 +101,7 @@ def replay_corpus(pid, tier, seed, deadline):
                     continue
                 seen.add((it["clause"], it.get("site")))
                 acc["violations"].append({"v": {"property": pid, "clause": it["clause"], "site": it.get("site"), "details": it.get("details")}, "case": it["case"]})
-        acc["samples"] = [{"case": "replay of %d committed corpus inputs (vf/fuzz/corpus) through the fuzz target" % len(files), "activity": {}}]
+        acc["samples"] = [{"case": "replay of %d of the committed corpus inputs (vf/fuzz/corpus, every third file starting at seed %% 3) through the fuzz target" % len(files), "activity": {}}]
     finally:
         shutil.rmtree(tmp, ignore_errors=True)
     return acc
